@@ -21,22 +21,33 @@ type tracerHandler struct {
 const atFDCWD = -100
 const maxSymlinkDepth = 40
 
+// flags of the *at calls that decide whether a symbolic link in the final component is followed
+const (
+	atSymlinkNoFollow = 0x100
+	atSymlinkFollow   = 0x400
+)
+
 func (h *tracerHandler) Debug(v ...interface{}) {
 	if h.ShowDetails {
 		fmt.Fprintln(os.Stderr, v...)
 	}
 }
 
-func (h *tracerHandler) getString(ctx *ptracer.Context, addr uint) string {
-	return absPath(ctx.Pid, ctx.GetString(uintptr(addr)))
+func (h *tracerHandler) getString(ctx *ptracer.Context, addr uint, follow bool) string {
+	return absPath(ctx.Pid, ctx.GetString(uintptr(addr)), follow)
 }
 
-func (h *tracerHandler) getStringAt(ctx *ptracer.Context, dirfd int, addr uint) string {
-	return absPathAt(ctx.Pid, dirfd, ctx.GetString(uintptr(addr)))
+func (h *tracerHandler) getStringAt(ctx *ptracer.Context, dirfd int, addr uint, follow bool) string {
+	return absPathAt(ctx.Pid, dirfd, ctx.GetString(uintptr(addr)), follow)
+}
+
+// isOpenFollow reports whether an open with these flags follows a symbolic link in the final component
+func isOpenFollow(flags uint64) bool {
+	return flags&syscall.O_NOFOLLOW == 0 && flags&(syscall.O_CREAT|syscall.O_EXCL) != syscall.O_CREAT|syscall.O_EXCL
 }
 
 func (h *tracerHandler) checkOpen(ctx *ptracer.Context, addr uint, flags uint) ptracer.TraceAction {
-	fn := h.getString(ctx, addr)
+	fn := h.getString(ctx, addr, isOpenFollow(uint64(flags)))
 	if blocked, action := h.checkProcPath(ctx.Pid, fn); blocked {
 		h.Debug("open proc policy: ", fn, getFileMode(flags))
 		return action
@@ -51,7 +62,7 @@ func (h *tracerHandler) checkOpen(ctx *ptracer.Context, addr uint, flags uint) p
 }
 
 func (h *tracerHandler) checkOpenAt(ctx *ptracer.Context, dirfd int, addr uint, flags uint) ptracer.TraceAction {
-	fn := h.getStringAt(ctx, dirfd, addr)
+	fn := h.getStringAt(ctx, dirfd, addr, isOpenFollow(uint64(flags)))
 	if blocked, action := h.checkProcPath(ctx.Pid, fn); blocked {
 		h.Debug("openat proc policy: ", fn, getFileMode(flags), "dirfd:", dirfd)
 		return action
@@ -66,13 +77,13 @@ func (h *tracerHandler) checkOpenAt(ctx *ptracer.Context, dirfd int, addr uint, 
 }
 
 func (h *tracerHandler) checkOpenAt2(ctx *ptracer.Context, dirfd int, addr uint, howAddr uint) ptracer.TraceAction {
-	fn := h.getStringAt(ctx, dirfd, addr)
+	flags, err := readOpenHowFlags(ctx.Pid, uintptr(howAddr))
+	fn := h.getStringAt(ctx, dirfd, addr, err != nil || isOpenFollow(flags))
 	if blocked, action := h.checkProcPath(ctx.Pid, fn); blocked {
 		h.Debug("openat2 proc policy: ", fn, "dirfd:", dirfd)
 		return action
 	}
 
-	flags, err := readOpenHowFlags(ctx.Pid, uintptr(howAddr))
 	if err != nil {
 		// Fail closed for policy classification: if the kernel will attempt an
 		// openat2 but we cannot decode open_how.flags, treat it as a write-capable
@@ -88,8 +99,8 @@ func (h *tracerHandler) checkOpenAt2(ctx *ptracer.Context, dirfd int, addr uint,
 	return h.Handler.CheckWrite(fn)
 }
 
-func (h *tracerHandler) checkRead(ctx *ptracer.Context, addr uint) ptracer.TraceAction {
-	fn := h.getString(ctx, addr)
+func (h *tracerHandler) checkRead(ctx *ptracer.Context, addr uint, follow bool) ptracer.TraceAction {
+	fn := h.getString(ctx, addr, follow)
 	if blocked, action := h.checkProcPath(ctx.Pid, fn); blocked {
 		h.Debug("check read proc policy: ", fn)
 		return action
@@ -98,8 +109,8 @@ func (h *tracerHandler) checkRead(ctx *ptracer.Context, addr uint) ptracer.Trace
 	return h.Handler.CheckRead(fn)
 }
 
-func (h *tracerHandler) checkReadAt(ctx *ptracer.Context, dirfd int, addr uint) ptracer.TraceAction {
-	fn := h.getStringAt(ctx, dirfd, addr)
+func (h *tracerHandler) checkReadAt(ctx *ptracer.Context, dirfd int, addr uint, follow bool) ptracer.TraceAction {
+	fn := h.getStringAt(ctx, dirfd, addr, follow)
 	if blocked, action := h.checkProcPath(ctx.Pid, fn); blocked {
 		h.Debug("check read proc policy: ", fn, "dirfd:", dirfd)
 		return action
@@ -108,8 +119,8 @@ func (h *tracerHandler) checkReadAt(ctx *ptracer.Context, dirfd int, addr uint) 
 	return h.Handler.CheckRead(fn)
 }
 
-func (h *tracerHandler) checkWrite(ctx *ptracer.Context, addr uint) ptracer.TraceAction {
-	fn := h.getString(ctx, addr)
+func (h *tracerHandler) checkWrite(ctx *ptracer.Context, addr uint, follow bool) ptracer.TraceAction {
+	fn := h.getString(ctx, addr, follow)
 	if blocked, action := h.checkProcPath(ctx.Pid, fn); blocked {
 		h.Debug("check write proc policy: ", fn)
 		return action
@@ -118,8 +129,8 @@ func (h *tracerHandler) checkWrite(ctx *ptracer.Context, addr uint) ptracer.Trac
 	return h.Handler.CheckWrite(fn)
 }
 
-func (h *tracerHandler) checkWriteAt(ctx *ptracer.Context, dirfd int, addr uint) ptracer.TraceAction {
-	fn := h.getStringAt(ctx, dirfd, addr)
+func (h *tracerHandler) checkWriteAt(ctx *ptracer.Context, dirfd int, addr uint, follow bool) ptracer.TraceAction {
+	fn := h.getStringAt(ctx, dirfd, addr, follow)
 	if blocked, action := h.checkProcPath(ctx.Pid, fn); blocked {
 		h.Debug("check write proc policy: ", fn, "dirfd:", dirfd)
 		return action
@@ -128,8 +139,8 @@ func (h *tracerHandler) checkWriteAt(ctx *ptracer.Context, dirfd int, addr uint)
 	return h.Handler.CheckWrite(fn)
 }
 
-func (h *tracerHandler) checkStat(ctx *ptracer.Context, addr uint) ptracer.TraceAction {
-	fn := h.getString(ctx, addr)
+func (h *tracerHandler) checkStat(ctx *ptracer.Context, addr uint, follow bool) ptracer.TraceAction {
+	fn := h.getString(ctx, addr, follow)
 	if blocked, action := h.checkProcPath(ctx.Pid, fn); blocked {
 		h.Debug("check stat proc policy: ", fn)
 		return action
@@ -138,8 +149,8 @@ func (h *tracerHandler) checkStat(ctx *ptracer.Context, addr uint) ptracer.Trace
 	return h.Handler.CheckStat(fn)
 }
 
-func (h *tracerHandler) checkStatAt(ctx *ptracer.Context, dirfd int, addr uint) ptracer.TraceAction {
-	fn := h.getStringAt(ctx, dirfd, addr)
+func (h *tracerHandler) checkStatAt(ctx *ptracer.Context, dirfd int, addr uint, follow bool) ptracer.TraceAction {
+	fn := h.getStringAt(ctx, dirfd, addr, follow)
 	if blocked, action := h.checkProcPath(ctx.Pid, fn); blocked {
 		h.Debug("check stat proc policy: ", fn, "dirfd:", dirfd)
 		return action
@@ -167,54 +178,62 @@ func (h *tracerHandler) Handle(ctx *ptracer.Context) ptracer.TraceAction {
 		action = h.checkOpenAt2(ctx, int(int32(ctx.Arg0())), ctx.Arg1(), ctx.Arg2())
 
 	case "readlink":
-		action = h.checkRead(ctx, ctx.Arg0())
+		action = h.checkRead(ctx, ctx.Arg0(), false)
 	case "readlinkat":
-		action = h.checkReadAt(ctx, int(int32(ctx.Arg0())), ctx.Arg1())
+		action = h.checkReadAt(ctx, int(int32(ctx.Arg0())), ctx.Arg1(), false)
 
 	case "unlink":
-		action = h.checkWrite(ctx, ctx.Arg0())
+		action = h.checkWrite(ctx, ctx.Arg0(), false)
 	case "unlinkat":
-		action = h.checkWriteAt(ctx, int(int32(ctx.Arg0())), ctx.Arg1())
+		action = h.checkWriteAt(ctx, int(int32(ctx.Arg0())), ctx.Arg1(), false)
 
-	case "mkdirat", "mknodat", "fchmodat", "fchmodat2":
-		action = h.checkWriteAt(ctx, int(int32(ctx.Arg0())), ctx.Arg1())
+	case "mkdirat", "mknodat":
+		action = h.checkWriteAt(ctx, int(int32(ctx.Arg0())), ctx.Arg1(), false)
+	case "fchmodat":
+		action = h.checkWriteAt(ctx, int(int32(ctx.Arg0())), ctx.Arg1(), true)
+	case "fchmodat2":
+		action = h.checkWriteAt(ctx, int(int32(ctx.Arg0())), ctx.Arg1(), ctx.Arg3()&atSymlinkNoFollow == 0)
 	case "symlinkat":
 		// symlinkat(target, newdirfd, linkpath)
-		action = h.checkWriteAt(ctx, int(int32(ctx.Arg1())), ctx.Arg2())
+		action = h.checkWriteAt(ctx, int(int32(ctx.Arg1())), ctx.Arg2(), false)
 	case "linkat":
 		action = combineTraceActions(
-			h.checkWriteAt(ctx, int(int32(ctx.Arg0())), ctx.Arg1()),
-			h.checkWriteAt(ctx, int(int32(ctx.Arg2())), ctx.Arg3()),
+			h.checkWriteAt(ctx, int(int32(ctx.Arg0())), ctx.Arg1(), ctx.Arg4()&atSymlinkFollow != 0),
+			h.checkWriteAt(ctx, int(int32(ctx.Arg2())), ctx.Arg3(), false),
 		)
 	case "renameat", "renameat2":
 		action = combineTraceActions(
-			h.checkWriteAt(ctx, int(int32(ctx.Arg0())), ctx.Arg1()),
-			h.checkWriteAt(ctx, int(int32(ctx.Arg2())), ctx.Arg3()),
+			h.checkWriteAt(ctx, int(int32(ctx.Arg0())), ctx.Arg1(), false),
+			h.checkWriteAt(ctx, int(int32(ctx.Arg2())), ctx.Arg3(), false),
 		)
 
 	case "access":
-		action = h.checkStat(ctx, ctx.Arg0())
-	case "faccessat", "faccessat2":
-		action = h.checkStatAt(ctx, int(int32(ctx.Arg0())), ctx.Arg1())
+		action = h.checkStat(ctx, ctx.Arg0(), true)
+	case "faccessat":
+		action = h.checkStatAt(ctx, int(int32(ctx.Arg0())), ctx.Arg1(), true)
+	case "faccessat2":
+		action = h.checkStatAt(ctx, int(int32(ctx.Arg0())), ctx.Arg1(), ctx.Arg3()&atSymlinkNoFollow == 0)
 
 	case "stat", "stat64":
-		action = h.checkStat(ctx, ctx.Arg0())
+		action = h.checkStat(ctx, ctx.Arg0(), true)
 	case "lstat", "lstat64":
-		action = h.checkStat(ctx, ctx.Arg0())
-	case "statx", "fstatat", "fstatat64", "newfstatat":
-		action = h.checkStatAt(ctx, int(int32(ctx.Arg0())), ctx.Arg1())
+		action = h.checkStat(ctx, ctx.Arg0(), false)
+	case "statx":
+		action = h.checkStatAt(ctx, int(int32(ctx.Arg0())), ctx.Arg1(), ctx.Arg2()&atSymlinkNoFollow == 0)
+	case "fstatat", "fstatat64", "newfstatat":
+		action = h.checkStatAt(ctx, int(int32(ctx.Arg0())), ctx.Arg1(), ctx.Arg3()&atSymlinkNoFollow == 0)
 
 	case "execve":
-		action = h.checkRead(ctx, ctx.Arg0())
+		action = h.checkRead(ctx, ctx.Arg0(), true)
 	case "execveat":
-		action = h.checkReadAt(ctx, int(int32(ctx.Arg0())), ctx.Arg1())
+		action = h.checkReadAt(ctx, int(int32(ctx.Arg0())), ctx.Arg1(), ctx.Arg4()&atSymlinkNoFollow == 0)
 
 	case "chmod":
-		action = h.checkWrite(ctx, ctx.Arg0())
+		action = h.checkWrite(ctx, ctx.Arg0(), true)
 	case "rename":
 		action = combineTraceActions(
-			h.checkWrite(ctx, ctx.Arg0()),
-			h.checkWrite(ctx, ctx.Arg1()),
+			h.checkWrite(ctx, ctx.Arg0(), false),
+			h.checkWrite(ctx, ctx.Arg1(), false),
 		)
 
 	default:
@@ -321,31 +340,31 @@ func getProcFd(pid int, fd int) string {
 	if err != nil {
 		return ""
 	}
-	return resolveTraceePath(pid, "/", normalizeProcMagicPath(pid, s))
+	return resolveTraceePath(pid, "/", normalizeProcMagicPath(pid, s), true)
 }
 
 // absPath calculates the absolute path for a process
 // built-in function did the dirty works to resolve relative paths
-func absPath(pid int, p string) string {
+func absPath(pid int, p string, follow bool) string {
 	// if relative path
 	if !filepath.IsAbs(p) {
-		return resolveTraceePath(pid, getProcCwd(pid), p)
+		return resolveTraceePath(pid, getProcCwd(pid), p, follow)
 	}
-	return resolveTraceePath(pid, "/", p)
+	return resolveTraceePath(pid, "/", p, follow)
 }
 
-func absPathAt(pid int, dirfd int, p string) string {
+func absPathAt(pid int, dirfd int, p string, follow bool) string {
 	if filepath.IsAbs(p) {
-		return resolveTraceePath(pid, "/", p)
+		return resolveTraceePath(pid, "/", p, follow)
 	}
 	if dirfd == atFDCWD {
-		return resolveTraceePath(pid, getProcCwd(pid), p)
+		return resolveTraceePath(pid, getProcCwd(pid), p, follow)
 	}
 	base := getProcFd(pid, dirfd)
 	if base == "" {
 		return ""
 	}
-	return resolveTraceePath(pid, base, p)
+	return resolveTraceePath(pid, base, p, follow)
 }
 
 func normalizeProcMagicPath(pid int, p string) string {
@@ -421,7 +440,9 @@ func isDangerousProcPath(path string) bool {
 	}
 }
 
-func resolveTraceePath(pid int, base string, p string) string {
+// follow tells whether the call follows a symbolic link in the final component (lstat, unlink, rename, O_NOFOLLOW, ...
+// do not: they act on the link itself); a name that ends in a slash always does
+func resolveTraceePath(pid int, base string, p string, follow bool) string {
 	// no lexical cleaning here: ".." after a symlink means the parent of the link's target,
 	// so the name is taken apart component by component while links are resolved
 	if !filepath.IsAbs(p) {
@@ -432,7 +453,7 @@ func resolveTraceePath(pid int, base string, p string) string {
 	}
 
 	for range maxSymlinkDepth {
-		next, changed := resolveTraceePathOnce(pid, p)
+		next, changed := resolveTraceePathOnce(pid, p, follow)
 		if !changed {
 			return next
 		}
@@ -441,7 +462,7 @@ func resolveTraceePath(pid int, base string, p string) string {
 	return filepath.Clean(p)
 }
 
-func resolveTraceePathOnce(pid int, p string) (string, bool) {
+func resolveTraceePathOnce(pid int, p string, follow bool) (string, bool) {
 	if p == "/" {
 		return p, false
 	}
@@ -467,7 +488,7 @@ func resolveTraceePathOnce(pid int, p string) (string, bool) {
 		}
 		lstatPath := filepath.Join(fmt.Sprintf("/proc/%d/root", pid), candidate)
 		fi, err := os.Lstat(lstatPath)
-		if err != nil || fi.Mode()&os.ModeSymlink == 0 {
+		if err != nil || fi.Mode()&os.ModeSymlink == 0 || (!follow && i+1 == len(rest)) {
 			cur = candidate
 			continue
 		}
